@@ -21,6 +21,8 @@ pub struct Part {
     pub cases: u64,
     pub builds: u64,
     pub hashes_checked: u64,
+    /// number of distinct redeemer encodings seen (varies with the HashMap seeds; not reported)
+    #[allow(dead_code)]
     pub distinct_redeemer_orders: usize,
 }
 
